@@ -363,6 +363,8 @@ pub struct Setup {
   pub name: String,
   pub spdc: SPDC,
   pub degenerate: bool,
+  /// the JSON config the setup was built from, when `spdc` is exactly that build
+  pub json: Option<String>,
 }
 
 /// a small zoo of phase-matched setups with randomised lengths, waists and bandwidths
@@ -476,11 +478,12 @@ pub fn gen_setup(r: &mut Rng, want_degenerate: Option<bool>) -> Setup {
           .replace(' ', ","),
           spdc,
           degenerate,
+          json: Some(json),
         };
       }
     }
   }
-  Setup { name: "default".into(), spdc: SPDC::default(), degenerate: true }
+  Setup { name: "default".into(), spdc: SPDC::default(), degenerate: true, json: None }
 }
 
 /// `gen_setup` plus everything that is varied rarely: the pm-type family is drawn uniformly (type 0, I, II,
@@ -540,7 +543,8 @@ pub fn gen_setup_x(r: &mut Rng, want_degenerate: Option<bool>) -> Setup {
     return st;
   }
   let name = if tags.is_empty() { st.name.clone() } else { format!("{},{}", st.name, tags.join(",")) };
-  Setup { name, spdc, degenerate: st.degenerate }
+  let json = if tags.is_empty() { st.json.clone() } else { None };
+  Setup { name, spdc, degenerate: st.degenerate, json }
 }
 
 /// square grid with identical signal and idler axes around the degenerate frequency
@@ -849,7 +853,17 @@ fn two_part(ctx: &mut Ctx) {
     let (ax, bx, _, ay, by, _) = raw(&r1);
     let span = (bx - ax).abs().max((by - ay).abs());
     let t = ctx.rng.log_range(0.05, 20.0) / span.max(1.0);
-    let delays = vec![0.0, t, -t, gen_delay(&mut ctx.rng, span)];
+    // non-uniform, unsorted delay list with the zero entry in any position
+    let mut delays = vec![0.0, t, -t, gen_delay(&mut ctx.rng, span)];
+    if ctx.rng.coin() {
+      delays.push(ctx.rng.range(-3.0, 3.0) * t);
+    }
+    for i in (1..delays.len()).rev() {
+      let j = ctx.rng.below(i + 1);
+      delays.swap(i, j);
+    }
+    let zero_at = delays.iter().position(|x| *x == 0.0).unwrap_or(0);
+    ctx.count(&format!("two/zero-delay-at={}", if zero_at == 0 { "first" } else if zero_at + 1 == delays.len() { "last" } else { "middle" }));
     let times: Vec<Time> = delays.iter().map(|x| *x * S).collect();
     ctx.count(&format!("two/range={}", rk));
     ctx.count(&format!("two/{}", st1.name.split(',').next().unwrap_or("?")));
@@ -895,9 +909,82 @@ fn two_part(ctx: &mut Ctx) {
       } else {
         ctx.s("C10.purity", false, "hom2/visibilities-panic", &det);
       }
+      // "two identical sources" through the free function: the same reference, an equal but distinct object
+      // (clone), and a second build of the same config
+      let mut routes: Vec<(&str, SPDC)> = vec![("same-reference", s1.clone()), ("clone", s1.clone())];
+      if let Some(js) = &st1.json {
+        if let Ok(b) = SPDC::from_json(js.clone()) {
+          if b == s1 {
+            routes.push(("second-build", b));
+          } else {
+            ctx.count("two/second-build-not-equal");
+          }
+        }
+      }
+      if own_norm(&e[0]) > 0.0 {
+        let pur = purity(&e[0], n);
+        for (route, other) in routes.iter() {
+          let a = s1.clone();
+          let v = if *route == "same-reference" {
+            guard(move || hom_two_source_visibilities(&a, &a, r1, r1, integ))
+          } else {
+            let b = other.clone();
+            guard(move || hom_two_source_visibilities(&a, &b, r1, r1, integ))
+          };
+          ctx.count(&format!("two/identical-route/{}", route));
+          let detr = format!("{} route={} signal_waist_position_um={:e} idler_waist_position_um={:e}", det, route, *(s1.signal_waist_position / (MICRO * M)), *(s1.idler_waist_position / (MICRO * M)));
+          match v {
+            Some(v) => {
+              let z = fl(0.0);
+              ctx.k("hom2_vis", &format!("1 {} {} {} {} {} {}", gs, gs, z, z, z, es), &fls(&[v.ss.1, v.ii.1, v.si.1]));
+              ctx.s("C10.purity", (v.ss.1 - v.ii.1).abs() <= 1e-9, "hom2/vss-eq-vii", &format!("{} vss={:e} vii={:e}", detr, v.ss.1, v.ii.1));
+              if let Some(p) = pur {
+                ctx.s("C10.purity", (v.ss.1 - p).abs() <= 1e-9, "hom2/vss-eq-purity", &format!("{} vss={:e} purity={:e}", detr, v.ss.1, p));
+                ctx.s("C10.purity", (v.ii.1 - p).abs() <= 1e-9, "hom2/vii-eq-purity", &format!("{} vii={:e} purity={:e}", detr, v.ii.1, p));
+              }
+            }
+            None => ctx.s("C10.purity", false, "hom2/visibilities-panic", &detr),
+          }
+        }
+      }
       if let Some(r) = &res {
         let ident = { let q = raw(&r1); q.0 == q.3 && q.1 == q.4 };
         rate_bounds(ctx, &r.ss, &r.ii, &r.si, &delays, &det, "same", rk, [own_norm(&e[0]), own_norm(&e[1]), own_norm(&e[6]), own_norm(&e[7])], ident);
+        if own_norm(&e[0]) > 0.0 && r.ss.len() == delays.len() {
+          // the zero-delay identities read from the zero entry of the multi-delay series, wherever it sits
+          if let Some(p) = purity(&e[0], n) {
+            let vss = (0.5 - r.ss[zero_at]) / 0.5;
+            let vii = (0.5 - r.ii[zero_at]) / 0.5;
+            ctx.s(
+              "C10.purity",
+              (vss - p).abs() <= 1e-9 && (vii - p).abs() <= 1e-9 && (vss - vii).abs() <= 1e-9,
+              "hom2/series-zero-delay-eq-purity",
+              &format!("{} delays={:?} zero_at={} vss={:e} vii={:e} purity={:e}", det, delays, zero_at, vss, vii, p),
+            );
+          }
+          // the rate at a delay does not depend on the other delays of the list: entry = single-delay call
+          let mut ok = true;
+          let mut why = String::new();
+          for (j, tau) in delays.iter().enumerate() {
+            let sp = s1.clone();
+            let tj = vec![*tau * S];
+            match guard(move || sp.hom_two_source_rate_series(tj, r1, integ)) {
+              Some(one) => {
+                for (name, a, b) in [("ss", r.ss[j], one.ss[0]), ("ii", r.ii[j], one.ii[0]), ("si", r.si[j], one.si[0])] {
+                  if !(close(a, b, 1e-10, 1e-13) || (a.is_nan() && b.is_nan())) {
+                    ok = false;
+                    why = format!("entry={} channel={} tau={:e} in_series={:e} single={:e}", j, name, tau, a, b);
+                  }
+                }
+              }
+              None => {
+                ok = false;
+                why = format!("entry={} single-delay call panicked", j);
+              }
+            }
+          }
+          ctx.s("C10.bounds", ok, "hom2/series-entry-eq-single-delay", &format!("{} delays={:?} {}", det, delays, why));
+        }
       } else {
         ctx.s("C10.bounds", false, "hom2/rate-series-panic", &det);
       }
